@@ -373,13 +373,21 @@ fn a(s: &str) -> Alias {
     Alias::new(s)
 }
 
+/// the bound value every expression-level subquery carries (`WHERE "id" < 5` keeps every fixture row)
+pub const SUB_BOUND: i32 = 5;
+
 pub fn subquery() -> SelectStatement {
-    Query::select().column(a("p")).from(a("tt")).to_owned()
+    Query::select().column(a("p")).from(a("tt")).and_where(Expr::col(a("id")).lt(SUB_BOUND)).to_owned()
 }
 
-fn sub_text(d: Dialect) -> String {
-    let sql = format!("SELECT {} FROM {}", lex::enc_ident(d, "p"), lex::enc_ident(d, "tt"));
-    lex::lex(d, &sql).unwrap().iter().map(|t| t.tok.show()).collect::<Vec<_>>().join(" ")
+fn sub_text(d: Dialect, params: bool) -> String {
+    let sql = format!("SELECT {} FROM {} WHERE {} < {}", lex::enc_ident(d, "p"), lex::enc_ident(d, "tt"), lex::enc_ident(d, "id"), SUB_BOUND);
+    lex::lex(d, &sql)
+        .unwrap()
+        .iter()
+        .map(|t| if params && matches!(t.tok, lex::Tok::Num(_)) { "?".to_string() } else { t.tok.show() })
+        .collect::<Vec<_>>()
+        .join(" ")
 }
 
 /// One binary operation through one of the equivalent public entry points (`k` selects): the generic `binary`, the named
@@ -676,7 +684,7 @@ impl E {
                     PT::In(*not, b(x), list.iter().map(|e| e.expect(d, params)).collect())
                 }
             }
-            E::InSub { not, x } => PT::InSub(*not, b(x), Box::new(PT::Sub(None, sub_text(d)))),
+            E::InSub { not, x } => PT::InSub(*not, b(x), Box::new(PT::Sub(None, sub_text(d, params)))),
             E::Func(f, args) => {
                 let name = match (f, d) {
                     (F::Abs, _) => "ABS",
@@ -703,10 +711,10 @@ impl E {
                 Box::new(PT::Tuple(l.iter().map(|e| e.expect(d, params)).collect())),
                 Box::new(PT::Tuple(r.iter().map(|e| e.expect(d, params)).collect())),
             ),
-            E::Exists => PT::Sub(Some("EXISTS".into()), sub_text(d)),
-            E::ScalarSub => PT::Sub(None, sub_text(d)),
+            E::Exists => PT::Sub(Some("EXISTS".into()), sub_text(d, params)),
+            E::ScalarSub => PT::Sub(None, sub_text(d, params)),
             E::Quantified(x, op, q) => {
-                PT::Bin(op.text().into(), b(x), Box::new(PT::Sub(Some(["ANY", "SOME", "ALL"][(*q % 3) as usize].into()), sub_text(d))))
+                PT::Bin(op.text().into(), b(x), Box::new(PT::Sub(Some(["ANY", "SOME", "ALL"][(*q % 3) as usize].into()), sub_text(d, params))))
             }
             E::CustomText => PT::Bin("+".into(), Box::new(PT::Num("1".into())), Box::new(PT::Num("1".into()))),
             E::CustomTmpl(x, y) => PT::Bin("+".into(), b(x), b(y)),
@@ -772,7 +780,7 @@ impl E {
                     format!("({} {}IN ({}))", x.ref_sqlite()?, if *not { "NOT " } else { "" }, items?.join(", "))
                 }
             }
-            E::InSub { not, x } => format!("({} {}IN (SELECT \"p\" FROM \"tt\"))", x.ref_sqlite()?, if *not { "NOT " } else { "" }),
+            E::InSub { not, x } => format!("({} {}IN (SELECT \"p\" FROM \"tt\" WHERE \"id\" < 5))", x.ref_sqlite()?, if *not { "NOT " } else { "" }),
             E::Func(f, args) => {
                 let name = match f {
                     F::Abs => "abs",
@@ -806,8 +814,8 @@ impl E {
                 let ri: Option<Vec<String>> = r.iter().map(|e| e.ref_sqlite()).collect();
                 format!("(({}) {} ({}))", li?.join(", "), op.text(), ri?.join(", "))
             }
-            E::Exists => "(EXISTS (SELECT \"p\" FROM \"tt\"))".into(),
-            E::ScalarSub => "(SELECT \"p\" FROM \"tt\")".into(),
+            E::Exists => "(EXISTS (SELECT \"p\" FROM \"tt\" WHERE \"id\" < 5))".into(),
+            E::ScalarSub => "(SELECT \"p\" FROM \"tt\" WHERE \"id\" < 5)".into(),
             E::Quantified(..) => return None,
             E::CustomText => "(1 + 1)".into(),
             E::CustomTmpl(x, y) => format!("({} + {})", x.ref_sqlite()?, y.ref_sqlite()?),
